@@ -1138,6 +1138,14 @@ func (t *tr) next(x *ssa.Next, R string, heaps map[string]string) {
 func (t *tr) ret(x *ssa.Return, b *ssa.BasicBlock, R string, heaps map[string]string) {
 	t.returns = append(t.returns, R)
 	t.retBlocks = append(t.retBlocks, b)
+	if t.parent != nil {
+		var vs []string
+		for _, r := range x.Results {
+			vs = append(vs, t.vals(r)...)
+		}
+		t.retInfo = append(t.retInfo, inlineRet{R, vs, copyMap(heaps)})
+		return
+	}
 	if t.own == nil {
 		return
 	}
